@@ -229,6 +229,15 @@ def gen_aux(rng, n):
                 v = b" " * rng.rint(0, 2) + v.strip(b" ")[: max(0, maxlen - 4)] + b" " * rng.rint(0, 2)
             v = v[:maxlen]
         aux.append((key, v))
+    # names that collide with cfitsio's keyword conventions but are legal auxiliary keys: the bare name HIERARCH (cfitsio's
+    # keyword SEARCH strips a leading HIERARCH and matches the first long-key card), HIERARCHx names, after and before long keys
+    if rng.chance(0.25):
+        k = rng.choice([b"HIERARCH", b"HIERARCH", b"HIERARCHY", b"HIERARCHX1"])
+        if k.decode() not in seen and not (k in (b"HIERARCHY", b"HIERARCHX1") and any(a == k[8:] for a, _ in aux)):
+            seen.add(k.decode())
+            longs = [i for i, (a, _) in enumerate(aux) if len(a) > 8]
+            pos = (rng.rint(longs[0] + 1, len(aux)) if (longs and rng.chance(0.7)) else rng.rint(0, len(aux)))
+            aux.insert(pos, (k, bytes(rng.choice(PLAIN) for _ in range(rng.rint(1, 10)))))
     # offers of the HDU-name keywords (to be refused) and of their near misses (to be stored), anywhere in the sequence
     if rng.chance(0.3):
         for _ in range(rng.rint(1, 3)):
